@@ -326,6 +326,10 @@ def shard(ctx, payload):
                     c = cs[rng.randrange(len(cs))] if cs else 1000
                     for mk in (centi_float(c), fmt2(c), '%d.%d' % (c // 100, (c % 100) // 10)):
                         args.append((g, age + frac, ev, mk))
+            # ages that are no ages (a year of birth typed into the age field, a negative, zero, a huge number): both refuse
+            yr = 1990 + rng.randrange(0, 10)
+            for odd in list(range(yr, yr + 45, 1)) + [0, -1, -12, 150, 10 ** 6, str(yr + 20), float(yr + 21)]:
+                args.append((g, odd, ev, '10.00'))
             ctx.label('tyrving-fractional-ages')
             args += [(g, ages[0] - 1, ev, '10.00'), (g, ages[-1] + 1, ev, '10.00'), (g.lower(), ages[0], ev.lower(), '10.00'),
                      ('X', ages[0], ev, '10.00'), (g, ages[0], 'MAR', '10.00'), (g, str(ages[0]), ev, '10.00')]
